@@ -154,6 +154,8 @@ def check_c19(tier: str) -> int:
         i4, i5 = common_installation(rng)
         for a4, a5 in zip(i4.acs, i5.acs):
             i4.ac_status[a4.number], i5.ac_status[a5.number] = common_ac_status(i4, i5, rng, a4.number)
+            if i4.ac_status[a4.number].error_code and rng.random() < 0.7:
+                i4.errors[a4.number] = i5.errors[a5.number] = rng.choice(["ER: 05", "Fault"])     # in fault when the clients connect
         for z in i4.zones:
             i4.zone_status[z], i5.zone_status[z] = common_zone_status(i4, i5, rng, z)
         r4 = console.ApiRig(i4, rng, record_sends=True)
